@@ -164,7 +164,8 @@ if __name__ == "__main__":
         json.dump(out, open(os.path.join(sdir, "verify.json"), "w"), indent=1)
         print(json.dumps(out, indent=1))
     elif cmd == "table":
-        rows = ["| id | property | what the change is | needs | confirmed | detected by (quick check) |", "|---|---|---|---|---|---|"]
+        rows = ["| id | property | the change (summary of its author) | needs | confirmed | quick check of the property |", "|---|---|---|---|---|---|"]
+        tally = {"oracle input": 0, "no-failing-input-found": 0, "not detected": 0, "obsolete": 0, "infra": 0}
         for d in sorted(os.listdir(sdir)):
             mp = os.path.join(sdir, d, "meta.json")
             if not os.path.exists(mp):
@@ -173,15 +174,31 @@ if __name__ == "__main__":
             v = json.load(open(os.path.join(sdir, d, "verify.json"))) if os.path.exists(os.path.join(sdir, d, "verify.json")) else {}
             det = json.load(open(os.path.join(sdir, d, "detect.json"))) if os.path.exists(os.path.join(sdir, d, "detect.json")) else {}
             ds = []
+            if m.get("status", "").startswith("obsolete"):
+                ds.append(m["status"]); tally["obsolete"] += 1
             for p_, r_ in det.items():
                 if r_["exit"] == 1:
-                    how = "oracle input" if not any("no-failing-input-found" in l for l in r_["lines"]) else "broken correspondence/proof, no-failing-input-found"
-                    ds.append(f"{p_}: VIOLATION ({how})")
+                    nf = any("no-failing-input-found" in l for l in r_["lines"])
+                    det_ = r_.get("detail") or {}
+                    if nf:
+                        what = "; ".join(str(b)[:110] for b in (det_.get("broken") or [])[:2])
+                        ds.append(f"{p_}: VIOLATION … no-failing-input-found ({what})"); tally["no-failing-input-found"] += 1
+                    else:
+                        fv = det_.get("first_violation") or {}
+                        cl = fv.get("clause") or fv.get("what") or fv.get("kind") or ""
+                        ds.append(f"{p_}: VIOLATION with a failing input ({str(cl)[:70]})"); tally["oracle input"] += 1
+                elif r_["exit"] == 0:
+                    ds.append(f"{p_}: NOT detected"); tally["not detected"] += 1
                 else:
-                    ds.append(f"{p_}: not detected (exit {r_['exit']})")
-            rows.append(f"| {d} | {m.get('property')} | {str(m.get('summary'))[:160]} | {str(m.get('needs'))[:160]} | {v.get('confirmed')} | {'; '.join(ds)} |")
-        open(os.path.join(sdir, "README.md"), "w").write("# Seeded changes and which checks catch them\n\n" + "\n".join(rows) + "\n")
-        print("\n".join(rows))
+                    ds.append(f"{p_}: infrastructure failure (exit {r_['exit']})"); tally["infra"] += 1
+            esc = lambda t: str(t).replace("|", "\\|").replace("\n", " ")
+            rows.append(f"| {d} | {m.get('property')} | {esc(m.get('summary'))[:230]} | {esc(m.get('needs'))[:200]} | {v.get('confirmed')} | {esc('; '.join(ds))} |")
+        head = ("# Seeded changes and which checks catch them\n\nEach change was written by a fresh sub-agent that saw only the property text and a scratch "
+                "worktree; `harness/seeded.py verify` confirmed it (patch applies, the 91 tests still pass, the demo fails with and passes without the "
+                "change) and `harness/seeded.py detect` ran the registered QUICK check of its property against a scratch worktree with the patch applied "
+                "(in a private copy of /verif; /repo is never touched).\n\nTally: " + ", ".join(f"{k}: {v_}" for k, v_ in tally.items()) + "\n\n")
+        open(os.path.join(sdir, "README.md"), "w").write(head + "\n".join(rows) + "\n")
+        print(head)
     else:
         out = detect(sdir, tier, props)
         old = {}
